@@ -29,6 +29,25 @@ def SepsOK6 : Option Bool → List (Nat × Raw5) → Prop
   | none, (_, b) :: rest => SepsOK6 (some (isParaB b)) rest
   | some ip, (s, b) :: rest => (s = 0 → AbutOK5 ip b) ∧ SepsOK6 (some (isParaB b)) rest
 
+/-- stage 12: no indented code block directly behind an indented code block (blank lines between two of them do not
+    separate them: CommonMark reads one block); the flag: the previous block is an indented code block -/
+def IcOK6 : Bool → List (Nat × Raw5) → Prop
+  | _, [] => True
+  | pic, (_, b) :: rest => (pic = true → isIcB b = false) ∧ IcOK6 (isIcB b) rest
+
+theorem icOK6_of_none : ∀ (items : List (Nat × Raw5)) (pic : Bool), (∀ it ∈ items, isIcB it.2 = false) → IcOK6 pic items
+  | [], _, _ => trivial
+  | (s, b) :: rest, pic, h => by
+    have hb : isIcB b = false := h (s, b) (by simp)
+    exact ⟨fun _ => hb, by rw [hb]; exact icOK6_of_none rest false (fun it hit => h it (by simp [hit]))⟩
+
+theorem abutOK5_false : ∀ b : Raw5, AbutOK5 false b
+  | .old (.para _) => rfl
+  | .old (.atx _ _) => trivial
+  | .old (.hr _) => fun h => by cases h
+  | .fence _ _ _ _ => trivial
+  | .icode _ => rfl
+
 /-- the number of lines (line feeds) of the document -/
 def left6 : List (Nat × Raw5) → Nat → Nat
   | [], trail => trail
@@ -46,6 +65,7 @@ theorem lines5_ne6 (b : Raw5) (h : Good5 b) : lines5 b ≠ [] := by
   cases b with
   | old b => exact lines4_ne b h
   | fence fc n info ls => simp [lines5]
+  | icode ls => simpa [lines5, icLines] using h.1
 
 theorem firstLine_ln {p : Nat} (b : Raw5) (hg : Good5 b) (hpa : ParaAt src p (lines5 b)) :
     ∃ e, Ln src p e (firstLine b) ∧ e = p + (firstLine b).length := by
@@ -59,52 +79,82 @@ theorem firstLine_ln {p : Nat} (b : Raw5) (hg : Good5 b) (hpa : ParaAt src p (li
     · simp [firstLine, h]; omega
 
 /-- the claim at a block boundary (nothing open) -/
-def ClaimB (src : Bytes) (items : List (Nat × Raw5)) : Prop :=
+def ClaimB (NL : Nat → Raw5 → Bool → Blocks.Node) (D : Nat → List (Nat × Raw5) → Nat → Prop) (src : Bytes)
+    (items : List (Nat × Raw5)) : Prop :=
   (∀ (trail q : Nat) (k : Int) (fb : Nat) (bl : List LineStat) (d : Blocks.Node) (cs : List Blocks.Node) (pc : Ctx),
-    DocAt6 src q items trail → (∀ it ∈ items, Good5 it.2) → SepsOK6 none items → left6 items trail + 2 ≤ fb →
+    D q items trail → (∀ it ∈ items, Good5 it.2) → SepsOK6 none items → IcOK6 false items → left6 items trail + 2 ≤ fb →
     pc.opened = [] →
     ∃ s' bs, blocksLoopT pts 0 fb bl ⟨rdr src k q q (lineEnd src q) none (-1), d :: cs, pc⟩ = .ok ((), s') ∧
       bs.length = items.length ∧
-      s'.nodes = addKids d cs.length items.length :: (cs ++ mkNodes5 (closedOf6 q items) (items.map (·.2)) bs) ∧
+      s'.nodes = addKids d cs.length items.length :: (cs ++ mkNodes5L NL (closedOf6 q items) (items.map (·.2)) bs) ∧
       s'.pc.refs = pc.refs)
 
 /-- the claim behind a block that is still open -/
-def ClaimO (src : Bytes) (items : List (Nat × Raw5)) : Prop :=
+def ClaimO (NL : Nat → Raw5 → Bool → Blocks.Node) (D : Nat → List (Nat × Raw5) → Nat → Prop) (src : Bytes)
+    (items : List (Nat × Raw5)) : Prop :=
   (∀ (trail q : Nat) (x xc : Blocks.Node) (pbp : BP) (k : Int) (fl fb : Nat) (bl : List LineStat) (d : Blocks.Node)
-      (rest : List Blocks.Node) (pc : Ctx),
-    OpenPrev src q x xc pbp → DocAt6 src q items trail → (∀ it ∈ items, Good5 it.2) →
-    SepsOK6 (some (x.kind == .paragraph)) items → left6 items trail + 2 ≤ fl → left6 items trail + 2 ≤ fb →
+      (rest : List Blocks.Node) (pc : Ctx) (pic : Bool),
+    OpenPrev src q x xc pbp → D q items trail → (∀ it ∈ items, Good5 it.2) →
+    SepsOK6 (some (x.kind == .paragraph)) items → (pbp = .code → pic = true) → IcOK6 pic items →
+    left6 items trail + 2 ≤ fl → left6 items trail + 2 ≤ fb →
     pc.opened = [{ node := rest.length + 1, bp := pbp }] →
     ∃ s' bs, tailT fl fb bl ⟨rdr src k q q (lineEnd src q) none (-1), d :: (rest ++ [x]), pc⟩ = .ok ((), s') ∧
       bs.length = items.length ∧
       s'.nodes = addKids d (rest.length + 1) items.length ::
-        ((rest ++ [xc]) ++ mkNodes5 (closedOf6 q items) (items.map (·.2)) bs) ∧
+        ((rest ++ [xc]) ++ mkNodes5L NL (closedOf6 q items) (items.map (·.2)) bs) ∧
       s'.pc.refs = pc.refs)
 
 /-- the two claims about a list of blocks -/
-def Claim6 (src : Bytes) (items : List (Nat × Raw5)) : Prop := ClaimB src items ∧ ClaimO src items
+def Claim6 (NL : Nat → Raw5 → Bool → Blocks.Node) (D : Nat → List (Nat × Raw5) → Nat → Prop) (src : Bytes)
+    (items : List (Nat × Raw5)) : Prop :=
+  ClaimB NL D src items ∧ ClaimO NL D src items
 
-theorem claim6_nil : Claim6 src [] := by
+theorem tailT_congr {fl fl' fb : Nat} {bl bl' : List LineStat} {s s' : St}
+    (h : linesLoopT pts 0 fl bl s = linesLoopT pts 0 fl' bl' s') : tailT fl fb bl s = tailT fl' fb bl' s' := by
+  unfold tailT
+  simp only [bind_apply, h]
+
+/-- the open indented code block, blank lines, the end of the source -/
+theorem code_trail : ∀ (trail : Nat) {q : Nat} {x xc : Blocks.Node}, OpenPrev src q x xc .code → BlanksAt src q trail →
+    q + trail = src.length → ∀ (d : Blocks.Node) (rest : List Blocks.Node) (k : Int) (fl fb : Nat) (bl : List LineStat)
+      (pc : Ctx), trail + 1 ≤ fl → pc.opened = [{ node := rest.length + 1, bp := .code }] →
+    ∃ s', tailT fl fb bl ⟨rdr src k q q (lineEnd src q) none (-1), d :: (rest ++ [x]), pc⟩ = .ok ((), s') ∧
+      s'.nodes = d :: (rest ++ [xc]) ∧ s'.pc.refs = pc.refs
+  | 0, q, x, xc, hprev, _, hq, d, rest, k, fl, fb, bl, pc, hf, hop => by
+    obtain ⟨s', h1, h2, _, h4⟩ := code_eof hprev (by simpa using hq) d rest k fl bl pc (by omega) hop
+    exact ⟨s', by rw [tailT_of_lines h1]; simp [pure_apply], h2, h4⟩
+  | t + 1, q, x, xc, hprev, hb, hq, d, rest, k, fl, fb, bl, pc, hf, hop => by
+    obtain ⟨fl', rfl⟩ : ∃ fl', fl = fl' + 1 := ⟨fl - 1, by omega⟩
+    obtain ⟨x', bl', hprev', e1⟩ := code_absorb hprev hb.1 d rest k fl' bl pc hop
+    obtain ⟨s', h1, h2, h3⟩ := code_trail t hprev' hb.2 (by omega) d rest (k + 1) fl' fb bl' pc (by omega) hop
+    exact ⟨s', by rw [tailT_congr e1]; exact h1, h2, h3⟩
+
+theorem claim6_nil (NL : Nat → Raw5 → Bool → Blocks.Node) : Claim6 NL (DocAt6 src) src [] := by
   refine ⟨?_, ?_⟩
-  · intro trail q k fb bl d cs pc hd _ _ hf hop
+  · intro trail q k fb bl d cs pc hd _ _ _ hf hop
     obtain ⟨f, rfl⟩ : ∃ f, fb = f + 1 := ⟨fb - 1, by omega⟩
     obtain ⟨r', hs⟩ := skipR_eof k hd.1 hd.2 (d :: cs) pc
     refine ⟨⟨r', d :: cs, pc⟩, [], ?_, rfl, ?_, rfl⟩
     · rw [blocksLoopT]
       simp only [bind_apply, hs]
       simp [pure_apply]
-    · simp [addKids_zero, mkNodes5, closedOf6]
-  · intro trail q x xc pbp k fl fb bl d rest pc hprev hd _ _ hfl hfb hop
+    · simp [addKids_zero, mkNodes5L, closedOf6]
+  · intro trail q x xc pbp k fl fb bl d rest pc pic hprev hd _ _ _ _ hfl hfb hop
     obtain ⟨hb, hq⟩ := hd
+    by_cases hcode : pbp = .code
+    · subst hcode
+      obtain ⟨s', h1, h2, h3⟩ := code_trail trail hprev hb hq d rest k fl fb bl pc (by simp [left6] at hfl; omega) hop
+      exact ⟨s', [], h1, rfl, by rw [h2]; simp [addKids_zero, mkNodes5L, closedOf6], h3⟩
     have haft : After src q := by
       cases trail with
       | zero => exact Or.inl (by simpa using hq)
       | succ t => exact Or.inr hb.1
-    obtain ⟨ret, bl', s1, h1, h2, h3, h4, h5⟩ := prev_end hprev d rest k fl bl pc haft (by simp [left6] at hfl; omega) hop
+    obtain ⟨ret, bl', s1, h1, h2, h3, h4, h5⟩ :=
+      prev_end hprev d rest k fl bl pc haft (by simp [left6] at hfl; omega) hop hcode
     rw [tailT_of_lines h1]
     rcases h5 with ⟨hr, _⟩ | ⟨hr, hln, k', hk'⟩
     · subst hr
-      exact ⟨s1, [], by simp [pure_apply], rfl, by rw [h2]; simp [addKids_zero, mkNodes5, closedOf6], h4⟩
+      exact ⟨s1, [], by simp [pure_apply], rfl, by rw [h2]; simp [addKids_zero, mkNodes5L, closedOf6], h4⟩
     · subst hr
       cases trail with
       | zero => exfalso; have := hln.le; omega
@@ -113,28 +163,26 @@ theorem claim6_nil : Claim6 src [] := by
         obtain ⟨r', hs⟩ := skipR_eof k' hb.2 (by omega) s1.nodes s1.pc
         have es1 : s1 = ⟨rdr src k' (q + 1) (q + 1) (lineEnd src (q + 1)) none (-1), s1.nodes, s1.pc⟩ := by
           cases s1; simp only at hk' ⊢; rw [hk']
-        refine ⟨⟨r', s1.nodes, s1.pc⟩, [], ?_, rfl, by simp only; rw [h2]; simp [addKids_zero, mkNodes5, closedOf6], h4⟩
+        refine ⟨⟨r', s1.nodes, s1.pc⟩, [], ?_, rfl, by simp only; rw [h2]; simp [addKids_zero, mkNodes5L, closedOf6], h4⟩
         simp only [Bool.false_eq_true, if_false]
         rw [es1, blocksLoopT]
         simp only [bind_apply, hs]
         simp [pure_apply]
 
 
-theorem tailT_congr {fl fl' fb : Nat} {bl bl' : List LineStat} {s s' : St}
-    (h : linesLoopT pts 0 fl bl s = linesLoopT pts 0 fl' bl' s') : tailT fl fb bl s = tailT fl' fb bl' s' := by
-  unfold tailT
-  simp only [bind_apply, h]
-
 /-- from behind the first line of block `b` to the end of the document, given the claims for the blocks behind it -/
-theorem runBlock (b : Raw5) (hg : Good5 b) (rest : List (Nat × Raw5)) (IH : Claim6 src rest) (p e : Nat)
+theorem runBlock (NL : Nat → Raw5 → Bool → Blocks.Node) (D : Nat → List (Nat × Raw5) → Nat → Prop) (b : Raw5)
+    (hg : Good5 b) (rest : List (Nat × Raw5))
+    (IH : Claim6 NL D src rest) (p e : Nat)
     (hl : Ln src p e (firstLine b)) (hpa : ParaAt src p (lines5 b)) (trail : Nat)
-    (hd : DocAt6 src (p + (paraBytes (lines5 b)).length) rest trail) (hgr : ∀ it ∈ rest, Good5 it.2)
-    (hs : SepsOK6 (some (isParaB b)) rest) (k : Int) (fl fb : Nat) (BL : List LineStat) (d : Blocks.Node)
+    (hd : D (p + (paraBytes (lines5 b)).length) rest trail) (hgr : ∀ it ∈ rest, Good5 it.2)
+    (hs : SepsOK6 (some (isParaB b)) rest) (hicr : IcOK6 (isIcB b) rest)
+    (k : Int) (fl fb : Nat) (BL : List LineStat) (d : Blocks.Node)
     (cs : List Blocks.Node) (bk : Bool) (pc : Ctx)
     (hfl : (lines5 b).length + left6 rest trail + 1 ≤ fl) (hfb : left6 rest trail + 2 ≤ fb) :
     ∃ s' bs, tailT fl fb BL (AF src k e d cs b p bk pc) = .ok ((), s') ∧ bs.length = rest.length ∧
       s'.nodes = addKids { d with children := d.children ++ [cs.length + 1] } (cs.length + 1) rest.length ::
-        ((cs ++ [node5 p b bk]) ++ mkNodes5 (closedOf6 (p + (paraBytes (lines5 b)).length) rest) (rest.map (·.2)) bs) ∧
+        ((cs ++ [node5 p b bk]) ++ mkNodes5L NL (closedOf6 (p + (paraBytes (lines5 b)).length) rest) (rest.map (·.2)) bs) ∧
       s'.pc.refs = pc.refs := by
   have hlen := hl.len
   have hlt := hl.lt
@@ -157,8 +205,8 @@ theorem runBlock (b : Raw5) (hg : Good5 b) (rest : List (Nat × Raw5)) (IH : Cla
         rw [e0] at hbody
         have hprev := OpenPrev.para (src := src) p (l0 :: more) bk (by simp) hpa hbk
         obtain ⟨s', bs, h1, h2, h3, h4⟩ :=
-          IH.2 trail _ _ _ .paragraph k' fl' fb bl' { d with children := d.children ++ [cs.length + 1] } cs pc'
-            hprev hd hgr hs (by simp [lines5, lines4] at hfl; omega) hfb (by rw [ho']; rfl)
+          IH.2 trail _ _ _ .paragraph k' fl' fb bl' { d with children := d.children ++ [cs.length + 1] } cs pc' false
+            hprev hd hgr hs (fun h => by cases h) hicr (by simp [lines5, lines4] at hfl; omega) hfb (by rw [ho']; rfl)
         refine ⟨s', bs, ?_, h2, h3, by rw [h4, hr']; rfl⟩
         rw [← h1]
         exact tailT_congr hbody
@@ -173,7 +221,8 @@ theorem runBlock (b : Raw5) (hg : Good5 b) (rest : List (Nat × Raw5)) (IH : Cla
         (headN level [sg (p + level + 1) (p + level + 1 + l.length + 1 - 1)] bk) (Or.inl rfl) (by simp [headN]) rfl
       obtain ⟨s', bs, h1, h2, h3, h4⟩ :=
         IH.2 trail _ _ _ .atx k fl fb BL { d with children := d.children ++ [cs.length + 1] } cs
-          (pcAF (.old (.atx level l)) cs.length pc) hprev hd hgr hs (by simp [lines5, lines4] at hfl; omega) hfb rfl
+          (pcAF (.old (.atx level l)) cs.length pc) false hprev hd hgr hs (fun h => by cases h) hicr
+          (by simp [lines5, lines4] at hfl; omega) hfb rfl
       refine ⟨s', bs, h1, h2, ?_, h4⟩
       rw [h3]
       simp [node5, node4]
@@ -186,7 +235,8 @@ theorem runBlock (b : Raw5) (hg : Good5 b) (rest : List (Nat × Raw5)) (IH : Cla
       have hprev := OpenPrev.leaf (src := src) (p + h.length + 1) .thematic (hrN bk) (Or.inr rfl) (by simp [hrN]) rfl
       obtain ⟨s', bs, h1, h2, h3, h4⟩ :=
         IH.2 trail _ _ _ .thematic k fl fb BL { d with children := d.children ++ [cs.length + 1] } cs
-          (pcAF (.old (.hr h)) cs.length pc) hprev hd hgr hs (by simp [lines5, lines4] at hfl; omega) hfb rfl
+          (pcAF (.old (.hr h)) cs.length pc) false hprev hd hgr hs (fun h => by cases h) hicr
+          (by simp [lines5, lines4] at hfl; omega) hfb rfl
       exact ⟨s', bs, h1, h2, h3, h4⟩
   | fence fc n info ls =>
     obtain ⟨hfc, hinfo, hcode⟩ := hg
@@ -213,7 +263,7 @@ theorem runBlock (b : Raw5) (hg : Good5 b) (rest : List (Nat × Raw5)) (IH : Cla
         (cs ++ [node5 p (.fence fc n info ls) bk]) s1.pc hd hgr (by
           cases rest with
           | nil => trivial
-          | cons it rest' => obtain ⟨s0, b0⟩ := it; exact hs.2) hfb h3
+          | cons it rest' => obtain ⟨s0, b0⟩ := it; exact hs.2) hicr hfb h3
     have en : node5 p (.fence fc n info ls) bk =
         fenceN (if info.isEmpty then none else some (sg (p + n + 3) (p + (n + 3 + info.length) + 1 - 1)))
           (csegs (p + (n + 3 + info.length) + 1) ([] ++ ls)) bk := by
@@ -230,6 +280,37 @@ theorem runBlock (b : Raw5) (hg : Good5 b) (rest : List (Nat × Raw5)) (IH : Cla
     simp only [Bool.false_eq_true, if_false]
     rw [es1, h2, ← en]
     exact i1
+  | icode ls =>
+    obtain ⟨hne, hg'⟩ := hg
+    cases ls with
+    | nil => exact absurd rfl hne
+    | cons l0 more =>
+      have he : e = p + 4 + l0.length + 1 := by simp [firstLine, lines5, icLines, ind4] at hlen; omega
+      subst he
+      obtain ⟨fl', rfl⟩ : ∃ fl', fl = fl' + more.length :=
+        ⟨fl - more.length, by simp [lines5, icLines] at hfl; omega⟩
+      have e0 : p + (paraBytes (icLines [l0])).length = p + 4 + l0.length + 1 := by
+        simp [paraBytes, icLines, ind4]; omega
+      have hpa' : ParaAt src p (icLines (l0 :: more)) := hpa
+      have hpa2 : ParaAt src (p + 4 + l0.length + 1) (icLines more) := by
+        have := hpa'.2
+        have e : p + (ind4 ++ l0).length + 1 = p + 4 + l0.length + 1 := by simp [ind4]; omega
+        rw [e] at this; exact this
+      obtain ⟨bl', k', hbody⟩ :=
+        code_body (src := src) { d with children := d.children ++ [cs.length + 1] } cs bk p more [l0] k fl' BL
+          (pcAF (.icode (l0 :: more)) cs.length pc) (by rw [e0]; exact hpa2)
+          (fun l hl' => hg' l (by simp [hl'])) rfl
+      rw [e0] at hbody
+      have hprev := OpenPrev.code (src := src) p (l0 :: more) 0 bk (by simp) hpa' hg' trivial
+      simp only [blankSegs, List.append_nil, Nat.add_zero] at hprev
+      obtain ⟨s', bs, h1, h2, h3, h4⟩ :=
+        IH.2 trail _ _ _ .code k' fl' fb bl' { d with children := d.children ++ [cs.length + 1] } cs
+          (pcAF (.icode (l0 :: more)) cs.length pc) true
+          hprev hd hgr hs (fun _ => rfl) hicr (by simp [lines5, icLines] at hfl; omega) hfb rfl
+      refine ⟨s', bs, ?_, h2, h3, h4⟩
+      rw [← h1]
+      apply tailT_congr
+      simpa [AF, first5, icsegs] using hbody
 
 theorem lines5_len_pos (b : Raw5) (hg : Good5 b) : 1 ≤ (lines5 b).length := by
   have := lines5_ne6 b hg
@@ -237,10 +318,29 @@ theorem lines5_len_pos (b : Raw5) (hg : Good5 b) : 1 ≤ (lines5 b).length := by
   | nil => exact absurd h this
   | cons a t => simp
 
-theorem claim6_cons (rest : List (Nat × Raw5)) (IH : Claim6 src rest) (b : Raw5) : ∀ s, Claim6 src ((s, b) :: rest) := by
-  have hB : ∀ s, ClaimB src ((s, b) :: rest) := by
-    intro s trail q k fb bl d cs pc hd hgood hseps hf hop
-    obtain ⟨hbl, hpa, hdr⟩ := hd
+theorem claim6_cons (NL : Nat → Raw5 → Bool → Blocks.Node) (D : Nat → List (Nat × Raw5) → Nat → Prop)
+    (rest : List (Nat × Raw5)) (IH : Claim6 NL D src rest)
+    (b : Raw5) (hNL : rest = [] → ∀ p bk, NL p b bk = node5 p b bk)
+    (hcons : ∀ q s trail, D q ((s, b) :: rest) trail ↔
+      (BlanksAt src q s ∧ ParaAt src (q + s) (lines5 b) ∧ D (q + s + (paraBytes (lines5 b)).length) rest trail)) :
+    ∀ s, Claim6 NL D src ((s, b) :: rest) := by
+  have hmk : ∀ (P Q : Nat) (bk : Bool) (bs : List Bool), bs.length = rest.length →
+      node5 P b bk :: mkNodes5L NL (closedOf6 Q rest) (rest.map (·.2)) bs =
+        mkNodes5L NL ((P, lines5 b) :: closedOf6 Q rest) (b :: rest.map (·.2)) (bk :: bs) := by
+    intro P Q bk bs hbs
+    cases rest with
+    | nil =>
+      have : bs = [] := List.eq_nil_of_length_eq_zero hbs
+      subst this
+      simp [mkNodes5L, closedOf6, hNL rfl]
+    | cons it rest' =>
+      obtain ⟨s0, b0⟩ := it
+      cases bs with
+      | nil => simp at hbs
+      | cons k2 bs' => simp only [closedOf6, List.map_cons]; rw [mkNodes5L_cons]
+  have hB : ∀ s, ClaimB NL D src ((s, b) :: rest) := by
+    intro s trail q k fb bl d cs pc hd hgood hseps hic hf hop
+    obtain ⟨hbl, hpa, hdr⟩ := (hcons q s trail).mp hd
     have hg : Good5 b := hgood (s, b) (by simp)
     have hgr : ∀ it ∈ rest, Good5 it.2 := fun it hit => hgood it (by simp [hit])
     obtain ⟨e, hl, _⟩ := firstLine_ln b hg hpa
@@ -248,62 +348,86 @@ theorem claim6_cons (rest : List (Nat × Raw5)) (IH : Claim6 src rest) (b : Raw5
     have hpos := lines5_len_pos b hg
     obtain ⟨BL, bk, eopen⟩ := open_any hbl b hg hl k d cs pc hop bl f
     obtain ⟨s', bs, r1, r2, r3, r4⟩ :=
-      runBlock b hg rest IH (q + s) e hl hpa trail hdr hgr hseps (k + s + 1) f f BL d cs bk pc
+      runBlock NL D b hg rest IH (q + s) e hl hpa trail hdr hgr hseps hic.2 (k + s + 1) f f BL d cs bk pc
         (by simp only [left6] at hf; omega) (by simp only [left6] at hf; omega)
     refine ⟨s', bk :: bs, by rw [eopen]; exact r1, by simp [r2], ?_, r4⟩
     rw [r3]
-    simp [addKids, mkNodes5, closedOf6, List.range'_succ]
-  intro s
-  refine ⟨hB s, ?_⟩
-  intro trail q x xc pbp k fl fb bl d rest0 pc hprev hd hgood hseps hfl hfb hop
-  obtain ⟨hbl, hpa, hdr⟩ := hd
-  have hg : Good5 b := hgood (s, b) (by simp)
-  have hgr : ∀ it ∈ rest, Good5 it.2 := fun it hit => hgood it (by simp [hit])
-  have hpos := lines5_len_pos b hg
-  cases s with
-  | zero =>
-    simp only [Nat.add_zero] at hpa hdr
-    have hab : AbutOK5 (x.kind == .paragraph) b := hseps.1 rfl
-    obtain ⟨e, hl, _⟩ := firstLine_ln b hg hpa
-    obtain ⟨fl', rfl⟩ : ∃ fl', fl = fl' + 1 := ⟨fl - 1, by omega⟩
-    obtain ⟨BL, bk, eab⟩ := abut_any hprev b hg hl hab k d rest0 pc hop bl fl'
-    obtain ⟨s', bs, r1, r2, r3, r4⟩ :=
-      runBlock b hg rest IH q e hl hpa trail hdr hgr hseps.2 (k + 1) fl' fb BL d (rest0 ++ [xc]) bk pc
-        (by simp only [left6] at hfl; omega) (by simp only [left6] at hfb; omega)
-    refine ⟨s', bk :: bs, by rw [tailT_congr eab]; exact r1, by simp [r2], ?_, r4⟩
-    rw [r3]
-    simp [addKids, mkNodes5, closedOf6, List.range'_succ]
-  | succ s' =>
-    obtain ⟨hln, hb'⟩ := hbl
-    obtain ⟨ret, bl', s1, h1, h2, h3, h4, h5⟩ :=
-      prev_end hprev d rest0 k fl bl pc (Or.inr hln) (by omega) hop
-    rw [tailT_of_lines h1]
-    rcases h5 with ⟨_, hq⟩ | ⟨hr, _, k', hk'⟩
-    · exfalso; have := hln.le; omega
-    · subst hr
+    simp only [closedOf6, List.map_cons, ← hmk (q + s) _ bk bs r2]
+    simp [addKids, List.range'_succ]
+  have hO : ∀ s, ClaimO NL D src ((s, b) :: rest) := by
+    intro s
+    induction s with
+    | zero =>
+      intro trail q x xc pbp k fl fb bl d rest0 pc pic hprev hd hgood hseps hpic hic hfl hfb hop
+      obtain ⟨hbl, hpa, hdr⟩ := (hcons q 0 trail).mp hd
+      have hg : Good5 b := hgood (0, b) (by simp)
+      have hgr : ∀ it ∈ rest, Good5 it.2 := fun it hit => hgood it (by simp [hit])
+      have hpos := lines5_len_pos b hg
+      simp only [Nat.add_zero] at hpa hdr
+      have hab : AbutOK5 (x.kind == .paragraph) b := hseps.1 rfl
+      obtain ⟨e, hl, _⟩ := firstLine_ln b hg hpa
+      obtain ⟨fl', rfl⟩ : ∃ fl', fl = fl' + 1 := ⟨fl - 1, by omega⟩
+      obtain ⟨BL, bk, eab⟩ := abut_any hprev b hg hl hab (fun h => hic.1 (hpic h)) k d rest0 pc hop bl fl'
+      obtain ⟨s', bs, r1, r2, r3, r4⟩ :=
+        runBlock NL D b hg rest IH q e hl hpa trail hdr hgr hseps.2 hic.2 (k + 1) fl' fb BL d (rest0 ++ [xc]) bk pc
+          (by simp only [left6] at hfl; omega) (by simp only [left6] at hfb; omega)
+      refine ⟨s', bk :: bs, by rw [tailT_congr eab]; exact r1, by simp [r2], ?_, r4⟩
+      rw [r3]
+      simp only [closedOf6, List.map_cons, Nat.add_zero, ← hmk q _ bk bs r2]
+      simp [addKids, List.range'_succ]
+    | succ s' ihs =>
+      intro trail q x xc pbp k fl fb bl d rest0 pc pic hprev hd hgood hseps hpic hic hfl hfb hop
+      obtain ⟨hbl, hpa, hdr⟩ := (hcons q (s' + 1) trail).mp hd
+      have hg : Good5 b := hgood (s' + 1, b) (by simp)
+      have hgr : ∀ it ∈ rest, Good5 it.2 := fun it hit => hgood it (by simp [hit])
+      have hpos := lines5_len_pos b hg
+      obtain ⟨hln, hb'⟩ := hbl
       have eqs : q + 1 + s' = q + (s' + 1) := by omega
-      have hd' : DocAt6 src (q + 1) ((s', b) :: rest) trail := ⟨hb', by rw [eqs]; exact hpa, by rw [eqs]; exact hdr⟩
-      have es1 : s1 = ⟨rdr src k' (q + 1) (q + 1) (lineEnd src (q + 1)) none (-1), d :: (rest0 ++ [xc]), s1.pc⟩ := by
-        cases s1; simp only at hk' h2 ⊢; rw [hk', h2]
-      obtain ⟨s2, bs, r1, r2, r3, r4⟩ :=
-        hB s' trail (q + 1) k' fb bl' d (rest0 ++ [xc]) s1.pc hd'
-          (by
-            intro it hit
-            simp only [List.mem_cons] at hit
-            rcases hit with rfl | hit
-            · exact hg
-            · exact hgr it hit) hseps.2
-          (by simp only [left6] at hfb ⊢; omega) h3
-      refine ⟨s2, bs, ?_, r2, ?_, by rw [r4, h4]⟩
-      · simp only [Bool.false_eq_true, if_false]
-        rw [es1]; exact r1
-      · rw [r3, closedOf6_shift]
+      have hd' : D (q + 1) ((s', b) :: rest) trail :=
+        (hcons (q + 1) s' trail).mpr ⟨hb', by rw [eqs]; exact hpa, by rw [eqs]; exact hdr⟩
+      have hgood' : ∀ it ∈ (s', b) :: rest, Good5 it.2 := by
+        intro it hit
+        simp only [List.mem_cons] at hit
+        rcases hit with rfl | hit
+        · exact hg
+        · exact hgr it hit
+      by_cases hcode : pbp = .code
+      · -- the blank line is appended to the open indented code block
+        subst hcode
+        obtain ⟨fl', rfl⟩ : ∃ fl', fl = fl' + 1 := ⟨fl - 1, by omega⟩
+        obtain ⟨x', bl', hprev', e1⟩ := code_absorb hprev hln d rest0 k fl' bl pc hop
+        have hk' := hprev'.code_kind
+        obtain ⟨s2, bs, r1, r2, r3, r4⟩ :=
+          ihs trail (q + 1) x' xc .code (k + 1) fl' fb bl' d rest0 pc pic hprev' hd' hgood'
+            (by rw [hk']; exact ⟨fun _ => abutOK5_false b, hseps.2⟩) hpic hic
+            (by simp only [left6] at hfl ⊢; omega) (by simp only [left6] at hfb ⊢; omega) hop
+        refine ⟨s2, bs, by rw [tailT_congr e1]; exact r1, r2, ?_, r4⟩
+        rw [r3, closedOf6_shift]
         simp
+      · obtain ⟨ret, bl', s1, h1, h2, h3, h4, h5⟩ :=
+          prev_end hprev d rest0 k fl bl pc (Or.inr hln) (by omega) hop hcode
+        rw [tailT_of_lines h1]
+        rcases h5 with ⟨_, hq⟩ | ⟨hr, _, k', hk'⟩
+        · exfalso; have := hln.le; omega
+        · subst hr
+          have es1 : s1 = ⟨rdr src k' (q + 1) (q + 1) (lineEnd src (q + 1)) none (-1), d :: (rest0 ++ [xc]), s1.pc⟩ := by
+            cases s1; simp only at hk' h2 ⊢; rw [hk', h2]
+          have hic0 : IcOK6 false ((s', b) :: rest) := ⟨fun h => Bool.noConfusion h, hic.2⟩
+          obtain ⟨s2, bs, r1, r2, r3, r4⟩ :=
+            hB s' trail (q + 1) k' fb bl' d (rest0 ++ [xc]) s1.pc hd' hgood' hseps.2 hic0
+              (by simp only [left6] at hfb ⊢; omega) h3
+          refine ⟨s2, bs, ?_, r2, ?_, by rw [r4, h4]⟩
+          · simp only [Bool.false_eq_true, if_false]
+            rw [es1]; exact r1
+          · rw [r3, closedOf6_shift]
+            simp
+  exact fun s => ⟨hB s, hO s⟩
 
 /-- both claims for every document -/
-theorem claim6_all : ∀ (items : List (Nat × Raw5)), Claim6 src items
-  | [] => claim6_nil
-  | (s, b) :: rest => claim6_cons rest (claim6_all rest) b s
+theorem claim6_all : ∀ (items : List (Nat × Raw5)), Claim6 node5 (DocAt6 src) src items
+  | [] => claim6_nil node5
+  | (s, b) :: rest =>
+    claim6_cons node5 (DocAt6 src) rest (claim6_all rest) b (fun _ _ _ => rfl) (fun _ _ _ => Iff.rfl) s
 end run6
 
 end GM.Proof.CMFrag
